@@ -25,7 +25,7 @@ for d in sorted(glob.glob(V+'/seeded/C??-*')):
     if m.get('cross_detection'): cur+=' – other checks: '+m['cross_detection']
     rows.append('| %s | %s | %s | %s | %s |'%(sid,cut(m.get('summary',''),260),cut(m.get('needs',''),220),cut(det,260) or '–',cut(cur,300)))
 s=open(V+'/DESIGN.md').read()
-a=s.index('| seed | site / idea |'); 
+a=s.index('| seed | ')
 b=a
 lines=s[a:].split('\n')
 n=0
